@@ -13,6 +13,7 @@ import (
 
 var witnessJSON = []string{
 	// descending sort with a null sort value: sort.Op puts nulls last, the merge first
+	// (fixed in /repo by 8f641a47c: this witness must pass)
 	`{"check":"par","pool":{"key":"k","desc":false,"class":"int","shape":"witness","recs":[
 	   [{"pos":1,"k":"1","id":0,"v":"null","b":"true","s":"a"}],
 	   [{"pos":2,"k":"2","id":1,"v":"5","b":"true","s":"a"},{"pos":3,"k":"3","id":2,"v":"4","b":"true","s":"a"}]]},
